@@ -211,7 +211,8 @@ def template_doc(rng: random.Random, props: bool) -> str:
     rng.shuffle(parts)
     # references to tables defined later are fine; enums must not matter for order either
     sep = rng.choice(["\n\n", "\n", "\n\n\n"])
-    return sep.join(parts) + rng.choice(["", "\n", "\n\n"])
+    head = "// first\tline\twith tabs\n" if rng.random() < 0.12 else ""
+    return head + sep.join(parts) + rng.choice(["", "\n", "\n\n"])
 
 
 def failing_variants(rng: random.Random, name: str, text: str) -> List[Tuple[str, str]]:
